@@ -4,22 +4,24 @@
 # and that the 19 tests still pass (unless SKIP_TESTS=1), then runs the quick checks of the given
 # properties against it and prints one line per check. Cleans up after itself.
 set -u
+VERIF="$(cd "$(dirname "$0")/.." && pwd)"
 SRC="$(cd "$1" && pwd)"; shift
 NAME="$(basename "$SRC")"
-W=/var/tmp/mw/$NAME
-V=/var/tmp/mw/verif-$NAME
+TAG=$(echo "$VERIF" | md5sum | cut -c1-6)
+W=/var/tmp/mw/$TAG-$NAME
+V=/var/tmp/mw/$TAG-verif-$NAME
 rm -rf "$W" "$V"; mkdir -p /var/tmp/mw "$V"
 git -C /repo worktree add -q --detach "$W" HEAD || exit 3
-cleanup() { B=$(cd /verif/sim && REPO=$W make -s print-build-dir); rm -rf "/verif/sim/$B"; git -C /repo worktree remove --force "$W"; rm -rf "$V"; }
+cleanup() { B=$(cd "$VERIF/sim" && REPO=$W make -s print-build-dir); rm -rf "$VERIF/sim/$B"; git -C /repo worktree remove --force "$W"; rm -rf "$V"; }
 trap cleanup EXIT
 if ! git -C "$W" apply "$SRC/patch.diff"; then echo "RESULT $NAME patch-does-not-apply"; exit 3; fi
 if [ -z "${SKIP_TESTS:-}" ]; then
   ( cd "$W" && meson setup _build . >/dev/null 2>&1 && meson test -C _build >"$V/tests.log" 2>&1 )
   if grep -q "^Fail: *0" "$V/tests.log" && grep -q "^Ok: *19" "$V/tests.log"; then echo "TESTS $NAME 19 pass"; else echo "TESTS $NAME FAIL"; tail -5 "$V/tests.log"; fi
 fi
-cp /verif/known_findings.txt "$V/"
+cp "$VERIF/known_findings.txt" "$V/"
 for P in "$@"; do
-  OUT=$(REPO=$W HEPSIM_VERIF=$V HEPSIM_FAST_ONLY=${FAST_ONLY:-} /verif/check $P quick 2>&1)
+  OUT=$(REPO=$W HEPSIM_VERIF=$V HEPSIM_FAST_ONLY=${FAST_ONLY:-} "$VERIF/check" $P ${TIER:-quick} 2>&1)
   RC=$?
   echo "CHECK $NAME $P exit=$RC $(echo "$OUT" | grep -c '^VIOLATION') violation(s): $(echo "$OUT" | grep 'oracle=' | sed 's/ run=.*//' | tr '\n' ';' | cut -c1-300)"
   if [ $RC -ne 0 ] && [ -n "${KEEP_REPLAYS:-}" ]; then mkdir -p "$SRC/replays"; cp "$V"/replays/$P-* "$SRC/replays/" 2>/dev/null; fi
